@@ -6,6 +6,7 @@ import fcntl, hashlib, json, os, subprocess, sys, time
 VERIF = os.path.dirname(os.path.dirname(os.path.abspath(__file__)))
 REPO = os.environ.get("VERIF_REPO", "/repo")
 CACHE = os.path.join(VERIF, ".cache")
+FACTS_SUB = os.environ.get("VERIF_FACTS_SUB", "facts")
 
 # crates whose fact files must exist after a run (cargo's freshness cache would silently skip
 # the wrapper otherwise); floors are the body-owner counts measured on the pinned tree (-10%).
@@ -49,9 +50,9 @@ def repo_hash():
 
 def ensure_facts(verbose=True):
     """Returns (facts_dir, info). Re-analyses when the tree hash is new."""
-    os.makedirs(os.path.join(CACHE, "facts"), exist_ok=True)
+    os.makedirs(os.path.join(CACHE, FACTS_SUB), exist_ok=True)
     hsh, nfiles = repo_hash()
-    d = os.path.join(CACHE, "facts", hsh)
+    d = os.path.join(CACHE, FACTS_SUB, hsh)
     lock = open(os.path.join(CACHE, "facts.lock"), "w")
     fcntl.flock(lock, fcntl.LOCK_EX)
     try:
@@ -80,7 +81,7 @@ def ensure_facts(verbose=True):
 
 
 def _gc(keep):
-    base = os.path.join(CACHE, "facts")
+    base = os.path.join(CACHE, FACTS_SUB)
     ds = [os.path.join(base, x) for x in os.listdir(base)]
     ds = [x for x in ds if os.path.isdir(x) and x != keep]
     ds.sort(key=os.path.getmtime)
